@@ -214,6 +214,92 @@ func evBitFwdList(t *Tracer, ids []BID, hz, vz, S, mn, mx int64) {
 	t.Emit(e, true)
 }
 
+// evBitFwdFree: a height range with arbitrary (decimal, feet) bounds; see TraceOps.X_BitFwdFree.
+func evBitFwdFree(t *Tracer, id BID, hz, vz int64, minH, maxH float64) {
+	rid := absW.realBID(id)
+	res25 := math.Ldexp(1, int(25-id.V))
+	bottom, top := float64(id.F)*res25, float64(id.F+1)*res25
+	cell := (maxH - minH) / math.Ldexp(1, int(vz))
+	nCells := math.Ldexp(1, int(vz))
+	clampF := func(v float64) float64 { return math.Max(0, math.Min(nCells-1, v)) }
+	span := (top - bottom) / cell
+	if span > 64 || cell <= 0 {
+		return
+	}
+	lenLo, lenHi := int64(math.Floor(span)), int64(math.Floor(span))+2
+	if bottom < minH || top > maxH {
+		lenLo = 1 // (partly) outside the range: clamped
+	}
+	if lenLo < 1 {
+		lenLo = 1
+	}
+	mid := (0.5*(bottom+top) - minH) / cell
+	midLo, midHi := int64(clampF(math.Floor(mid)-1)), int64(clampF(math.Floor(mid)+1))
+	if midHi >= 1<<29 {
+		return
+	}
+	o, res := guard(func() (any, error) {
+		return transform.ConvertExtendedSpatialIDsToQuadkeysAndVerticalIDs([]string{rid.String()}, hz, vz, maxH, minH)
+	})
+	e := absW.ev("BitFwdFree", map[string]any{"id": id.Arr(), "hz": hz, "vz": vz, "lenLo": lenLo, "lenHi": lenHi, "midLo": midLo, "midHi": midHi})
+	e.O, e.Real = o, map[string]any{"id": rid.String(), "maxHeight": fmt.Sprint(maxH), "minHeight": fmt.Sprint(minH)}
+	e.R = []any{}
+	if o == "panic" {
+		e.Bad = "panic"
+	} else if res != nil {
+		groups := []any{}
+		for _, g := range res.([]*object.FromExtendedSpatialIDToQuadkeyAndVerticalID) {
+			pairs := []any{}
+			for _, p := range g.InnerIDList() {
+				d, ok := quadDigits(p[0], g.QuadkeyZoom())
+				if !ok || p[1] >= 1<<29 || p[1] <= -(1<<29) {
+					e.Bad = "quadkey does not fit zoom / cell index out of any range"
+					continue
+				}
+				pairs = append(pairs, []any{d, p[1]})
+			}
+			groups = append(groups, map[string]any{"hz": g.QuadkeyZoom(), "vz": g.VerticalZoom(),
+				"echo": g.MaxHeight() == maxH && g.MinHeight() == minH, "pairs": pairs})
+		}
+		e.R = groups
+	}
+	t.Emit(e, true)
+}
+
+func driveBitsFree(t *Tracer, r Rng, n int) {
+	for i := 0; i < n; i++ {
+		// ranges in decimal metres and in feet, as they are configured in practice
+		var minH, span float64
+		switch r.Intn(4) {
+		case 0:
+			minH, span = 0, float64(r.Pick(1000, 2000, 5000, 8000, 10000, 400, 150))*0.3048
+		case 1:
+			minH, span = -float64(r.In(0, 5000))/10, float64(r.In(1, 100000))/10
+		case 2:
+			minH, span = float64(r.In(-400, 400)), float64(r.Pick(100, 300, 500, 1000, 3000, 3400, 8848))
+		default:
+			minH, span = float64(r.In(-3000, 3000))/100, float64(r.In(100, 1000000))/100
+		}
+		maxH := minH + span
+		vz := r.In(0, 22)
+		cell := span / math.Ldexp(1, int(vz))
+		// a voxel of about 0.05 .. 20 cells, inside / straddling / outside the range
+		V := int64(25 - math.Round(math.Log2(cell*math.Pow(2, 4*r.Float64()-2))))
+		if V < 0 || V > 35 {
+			continue
+		}
+		res := math.Ldexp(1, int(25-V))
+		alt := minH + span*(r.Float64()*1.2-0.1)
+		id := BID{V: V, F: int64(math.Floor(alt / res)), H: r.In(1, 25)}
+		if abs64(id.F) >= int64(1)<<uint(minI(V, 28)) {
+			continue
+		}
+		id.X, id.Y = r.patternedIndex(id.H), r.patternedIndex(id.H)
+		hz := r.In(maxI(1, id.H-3), minI(31, id.H+1))
+		evBitFwdFree(t, id, hz, vz, minH, maxH)
+	}
+}
+
 // evBitHi: subdivision zooms 13..35 with the range [mn, mn + cell * 2^vz) given by its cell height
 // (all in units of 2^-S m); the voxel / the cell index stay near the bottom of the range so that
 // every number the model sees is small.
@@ -443,6 +529,7 @@ func driveTiles(t *Tracer, r Rng, n int) {
 }
 
 func driveBits(t *Tracer, r Rng, n int) {
+	driveBitsFree(t, r, n/8)
 	for i := 0; i < n; {
 		if r.Chance(0.25) { // high subdivision zooms
 			vz := r.In(13, 35)
